@@ -347,7 +347,11 @@ def execute(scen, scratch):
             if b["kind"] == "skipped":
                 continue
             if a["kind"] == "exc" or b["kind"] == "exc":
-                if (a["kind"], a.get("exc")) != (b["kind"], b.get("exc")):
+                if a["kind"] == b["kind"] and a.get("exc") != b.get("exc") and store_backed:
+                    # every interpreter rejects the input; which of two unsupported constructs is named first follows the
+                    # order of the shapes, i.e. the store order (no result exists that the statement could compare)
+                    sim.probes["both_raise_other_type_store_backed"] += 1
+                elif (a["kind"], a.get("exc")) != (b["kind"], b.get("exc")):
                     violations.append(violation("shexc_bytes", "exception_parity", [ci, case["channel"], a.get("exc"), b.get("exc"), scen["hashseeds"][k]]))
                 continue
             if b.get("file_equals_string") is False or a.get("file_equals_string") is False:
@@ -382,7 +386,9 @@ def execute(scen, scratch):
             if b["kind"] == "skipped":
                 continue
             if a["kind"] == "exc" or b["kind"] == "exc":
-                if (a["kind"], a.get("exc")) != (b["kind"], b.get("exc")):
+                if a["kind"] == b["kind"] and a.get("exc") != b.get("exc") and store_backed:
+                    sim.probes["both_raise_other_type_store_backed"] += 1
+                elif (a["kind"], a.get("exc")) != (b["kind"], b.get("exc")):
                     violations.append(violation("shacl_iso", "exception_parity", [ci, case["channel"], a.get("exc"), b.get("exc")]))
                 continue
             if a["digest"] != b["digest"]:
